@@ -4,8 +4,9 @@ from vlib.core import hx
 
 MODULES = ["TLVerif.Props.C13"]
 THEOREMS = ["TLVerif.Props.C13." + t for t in [
-    "huge_size_accepted", "oversize_rejected", "slice_ignores_rest", "explicit_zero_prim", "missing_tail_is_empty",
-    "unknown_tail_skipped", "padded_mask_same", "fields_ignore_tail", "struct_unknown_tail_skipped", "reenc_huge_object"]]
+    "huge_size_accepted", "reenc_huge_object", "oversize_rejected", "slice_ignores_rest", "explicit_zero_prim",
+    "missing_tail_is_empty", "padded_mask_same", "unknown_tail_skipped", "fields_ignore_tail", "struct_unknown_tail_skipped",
+    "model_codecs"]]
 
 # (old, new): `new` appends fields / variants to `old` (checks/data/tl2extra.tl2)
 EVOLUTION = [("x.ev1a", "x.ev1b"), ("x.ev2a", "x.ev2b"), ("x.ev3a", "x.ev3b"), ("x.ev4a", "x.ev4b"), ("x.Ev5a", "x.Ev5b"),
@@ -43,7 +44,7 @@ def has_size_prefix(I, ty):
 
 
 def run(c):
-    c.lean(MODULES, THEOREMS, sources=["TLVerif.Codec.TL2", "TLVerif.Codec.TL2Lemmas", "TLVerif.Codec.TL2RoundTrip"])
+    c.lean(MODULES, THEOREMS, sources=["TLVerif.Codec.TL2", "TLVerif.Codec.TL2Lemmas", "TLVerif.Codec.TL2RoundTrip", "TLVerif.Codec.TL2Evolution"])
     model, schemas = t2.prepare(c)
     rng = c.rng
     per = 20 if c.thorough else 4
